@@ -24,7 +24,7 @@ def parse_line(line):
           .replace("TRUE", "true").replace("FALSE", "false"))
     s = re.sub(r'(\w+) \|->', r'"\1":', s)
     r = json.loads(s)
-    if r[0] != "CASE" or len(r) != 12:
+    if r[0] != "CASE" or len(r) != 13:
         raise ValueError("not a CASE record: %r" % (line[:200],))
     return r
 
@@ -211,20 +211,47 @@ def same_locals(exp, got):
     return set(exp) == set(got) and all(same_value(exp[n], got[n], True) for n in exp)
 
 
-def observe(fn, inst, posvals, kws, fx, R, X):
-    """Call and record: events (messages of the default logger, body invocations), result / exception."""
+OUTER_TYPE = "c18:outer"
+ELIOT = {}       # start_action, MemoryLogger of the tree under test (set by main)
+
+
+def observe(fn, inst, posvals, kws, fx, R, X, ctx="top"):
+    """Call and record: events (messages of the default logger, body invocations), result / exception.
+    ctx: calling context -- "top" (no current action), "action" (inside start_action(action_type=OUTER_TYPE), default
+    logger), "private" (inside start_action(<MemoryLogger>, OUTER_TYPE): the outer action writes to its own logger)."""
     del EVENTS[:]
     CTL["fx"], CTL["R"], CTL["X"] = fx, R, X
     kw = {x: kwv(x) for x in kws}
-    o = {"exc": None, "ret": None}
-    try:
+    o = {"exc": None, "ret": None, "ctx": ctx, "outer_uuid": None, "private": None, "ctx_problem": None}
+
+    def call():
         if inst is not None:
-            o["ret"] = getattr(inst, "target")(*posvals[1:], **kw)
+            return getattr(inst, "target")(*posvals[1:], **kw)
+        return fn(*posvals, **kw)
+    try:
+        if ctx == "top":
+            o["ret"] = call()
         else:
-            o["ret"] = fn(*posvals, **kw)
+            private = ELIOT["MemoryLogger"]() if ctx == "private" else None
+            outer = ELIOT["start_action"](action_type=OUTER_TYPE) if private is None else ELIOT["start_action"](private, OUTER_TYPE)
+            o["outer_uuid"] = outer.task_uuid
+            if private is not None:
+                o["private"] = private.messages
+            with outer:
+                o["ret"] = call()
     except BaseException as e:      # the body may raise a BaseException subclass on purpose
         o["exc"] = e
-    o["events"] = list(EVENTS)
+    events = list(EVENTS)
+    if ctx == "action":
+        # the outer action's own start and end went to the default destinations too: they frame the events, take them off
+        if len(events) >= 2 and events[0][0] == "msg" and events[-1][0] == "msg" and \
+                events[0][1].get("action_type") == OUTER_TYPE and events[-1][1].get("action_type") == OUTER_TYPE and \
+                events[0][1].get("task_level") == [1]:
+            events = events[1:-1]
+        else:
+            o["ctx_problem"] = "the outer action's own messages do not frame the events"
+    o["events"] = events
+    EVENTS[:] = events
     o["calls"] = [e[1] for e in EVENTS if e[0] == "call"]
     o["wcalls"] = [e[1] for e in EVENTS if e[0] == "wcall"]
     o["msgs"] = [e[1] for e in EVENTS if e[0] == "msg"]
@@ -238,6 +265,11 @@ def describe(o):
          "wrapper_calls": [{k: repr(v) for k, v in c.items()} for c in o.get("wcalls", [])],
          "messages": [{k: repr(v) for k, v in m.items() if k not in ("timestamp", "task_uuid")} for m in o["msgs"]],
          "order": [e[0] for e in o["events"]]}
+    if o.get("ctx", "top") != "top":
+        d["context"] = o["ctx"]
+        d["messages_in_the_outer_task"] = [m.get("task_uuid") == o.get("outer_uuid") for m in o["msgs"]]
+        if o.get("private") is not None:
+            d["private_logger_messages"] = [{k: repr(v) for k, v in m.items() if k not in ("timestamp", "task_uuid")} for m in o["private"]]
     return d
 
 
@@ -264,6 +296,8 @@ def judge(o, ok, b, sig, posvals, tail, fx, R, X, has_self):
         if o["exc"] is not X:
             fails.append("same-exception-object")
     msgs = o["msgs"]
+    if o.get("private") is not None and any(m.get("action_type") != OUTER_TYPE for m in o["private"]):
+        fails.append("nothing-written-to-the-outer-action's-private-logger")
     if len(msgs) != 2 or msgs[0].get("action_status") != "started" or \
             msgs[1].get("action_status") not in ("succeeded", "failed") or \
             msgs[0].get("task_uuid") != msgs[1].get("task_uuid") or \
@@ -275,6 +309,13 @@ def judge(o, ok, b, sig, posvals, tail, fx, R, X, has_self):
     if len(o["calls"]) == 1 and order != ["msg", "call", "msg"]:
         fails.append("action-surrounds-the-call")
     st, en = msgs
+    # placement: where start_action(action_type=...) at the same place would be written (these messages WERE seen at the
+    # default destinations); a new task at top level, a child of the current action otherwise
+    if start_ev.get("task", "new") == "new":
+        if len(st["task_level"]) != 1:
+            fails.append("new-task-at-top-level")
+    elif st.get("task_uuid") != o.get("outer_uuid") or len(st["task_level"]) != 2 or st["task_level"][0] < 2:
+        fails.append("child-of-the-current-action")
     at = {"module.name": MODNAME + ".target", "module.Class.name": MODNAME + ".Klass.target", "given": GIVEN_TYPE}[start_ev["type"]]
     if st.get("action_type") != at:
         fails.append("action-type")
@@ -375,8 +416,8 @@ def judge_kind(o, u, ok, exp_own, osig, tail, R, X):
 
 
 def run_kind_case(r, variants, cache, log_call, out, detail=False):
-    _, sig, (np_, kws, meth), (given, ianames, ir, at, fx, bare), Bw, reasons, dev, obs, tail, tk, osig, innerw = r
-    if meth or dev != ["-"]:
+    _, sig, (np_, kws, meth), (given, ianames, ir, at, fx, bare), Bw, reasons, dev, obs, tail, tk, osig, innerw = r[:12]
+    if meth or dev != ["-"] or r[12] != "top":
         raise ValueError("target kind %s outside its domain: %r" % (tk, r))
     refused = obs[0]["e"] == "raise"
     ok = bool(Bw)
@@ -483,6 +524,7 @@ def run_case(r, variants, cache, log_call, out, detail=False):
     if r[9] != "plain":
         return run_kind_case(r, variants, cache, log_call, out, detail)
     _, sig, (np_, kws, meth), (given, ianames, ir, at, fx, bare), Bw, reasons, dev, obs, tail = r[:9]
+    ctx = r[12]
     ok = bool(Bw)
     b = Bw[0] if ok else None
     names = [p[2] for p in sig]
@@ -527,7 +569,7 @@ def run_case(r, variants, cache, log_call, out, detail=False):
                 meta.append("keeps-signature")
         cache["deco"][okey] = (deco, derr, dklass, meta, kwargs)
     deco, derr, dklass, meta, kwargs = cache["deco"][okey]
-    base = {"sig": sig, "call": [np_, kws, meth], "opt": [given, ianames, ir, at, fx, bare], "source": src, "kind": "plain",
+    base = {"sig": sig, "call": [np_, kws, meth], "opt": [given, ianames, ir, at, fx, bare], "source": src, "kind": "plain", "context": ctx,
             "decorator": "log_call" if bare else "log_call(%s)" % ", ".join("%s=%r" % kv for kv in sorted(kwargs.items())),
             "expected_binding": b if ok else "TypeError " + ",".join(reasons)}
     results = []
@@ -550,9 +592,11 @@ def run_case(r, variants, cache, log_call, out, detail=False):
         # --- plain Python against the specification (a disagreement is a failure of the machinery, not of eliot)
         inst = klass() if meth else None
         posvals = ([inst] + P[1:np_]) if meth else P[:np_]
-        u = observe(raw, inst, posvals, kws, fx, R, X)
-        mach = None
-        if not ok:
+        u = observe(raw, inst, posvals, kws, fx, R, X, ctx)
+        mach = u["ctx_problem"]
+        if mach:
+            pass
+        elif not ok:
             if not isinstance(u["exc"], TypeError) or u["calls"]:
                 mach = "spec says TypeError (%s), plain Python: %s" % (",".join(reasons), describe(u))
         else:
@@ -569,7 +613,10 @@ def run_case(r, variants, cache, log_call, out, detail=False):
         # --- the wrapper against the specification
         dinst = dklass() if meth else None
         dpos = ([dinst] + P[1:np_]) if meth else P[:np_]
-        o = observe(deco, dinst, dpos, kws, fx, R, X)
+        o = observe(deco, dinst, dpos, kws, fx, R, X, ctx)
+        if o["ctx_problem"]:
+            results.append(("machinery", [o["ctx_problem"] + ": " + repr(describe(o))], {"variant": v}))
+            continue
         fails = judge(o, ok, b, sig, dpos, tail, fx, R, X, has_self)
         if not fails:
             if detail:
@@ -611,14 +658,15 @@ def main(argv):
     if not os.path.realpath(eliot.__file__).startswith(repo + os.sep):
         print("eliot imported from %s, not from %s" % (eliot.__file__, repo), file=sys.stderr)
         return 3
-    from eliot import log_call, add_destinations
+    from eliot import log_call, add_destinations, start_action, MemoryLogger
+    ELIOT["start_action"], ELIOT["MemoryLogger"] = start_action, MemoryLogger
     add_destinations(lambda m: EVENTS.append(("msg", m)))
     recs = []
     for line in inp["lines"]:
         recs.append((line, parse_line(line)))
-    recs.sort(key=lambda lr: (json.dumps(lr[1][1]), lr[1][9], lr[1][2][2], json.dumps(lr[1][3]), json.dumps(lr[1][2])))
+    recs.sort(key=lambda lr: (json.dumps(lr[1][1]), lr[1][9], lr[1][2][2], json.dumps(lr[1][3]), json.dumps(lr[1][2]), lr[1][12]))
     out = {"n": 0, "runs": 0, "machinery": [], "violations": [], "known": {}, "known_examples": {}, "n_violations": 0,
-           "nontrivial": 0, "bound": 0, "typeerror": 0, "refused": 0, "ok_detail": [], "kinds": {}}
+           "nontrivial": 0, "bound": 0, "typeerror": 0, "refused": 0, "ok_detail": [], "kinds": {}, "contexts": {}}
     cache = {}
     for line, r in recs:
         out["n"] += 1
@@ -627,6 +675,7 @@ def main(argv):
         else:
             variants = inp["variants"]
         out["kinds"][r[9]] = out["kinds"].get(r[9], 0) + 1
+        out["contexts"][r[12]] = out["contexts"].get(r[12], 0) + 1
         if r[7][0]["e"] == "raise":
             out["refused"] += 1
         elif r[4]:
